@@ -197,6 +197,10 @@ func (vm *VM) subRunAll(omitNil bool, tePath string, value reflect.Value, fn fun
 	}
 	rt := dereferenceType(rv.Type())
 	rv = dereferenceValue(rv)
+	if !rv.IsValid() && rt.Kind() != reflect.Struct {
+		// a nil pointer to a slice, an array or a map: nothing behind it to walk
+		return nil
+	}
 	switch rt.Kind() {
 	case reflect.Struct:
 		if len(tePath) == 0 {
